@@ -20,7 +20,7 @@ CLAIMED = {
                 "value setters notify and update() overrides produce the value through .value reads and clear the flag, evaluating the function once (B3), "
                 "value getter updates exactly under (stale and not frozen) (B6), mark_for_update/notify_parents have the stop condition that carries the "
                 "invariant 'stale => ancestors stale or frozen' (B4), every Nexus edit ends in a cycle check (B5), Function keeps parameters in sync (B7). "
-                "These are necessary conditions of 'reads equal a from-scratch evaluation': each broken obligation yields a concrete stale read. Added: (B10) replace_child substitutes the node at every position; (B11) a rejected cyclic dependency takes back exactly the edges it added.",
+                "These are necessary conditions of 'reads equal a from-scratch evaluation': each broken obligation yields a concrete stale read. Added: (B10) replace_child substitutes the node at every position; (B11) a rejected cyclic dependency takes back exactly the edges it added; (B4a, second half) a node that is already stale still forwards a notification when an ancestor may be fresh - the whole chain left stale by a failed update under a Fallback, not only its top (flag protocol: Fallback handler -> recursive flagging -> forwarding branch).",
         "note": "Decides the per-method obligations, not the global state-machine correctness over arbitrary graphs (a model-checking statement outside this "
                 "technique family). Trusted: Python semantics of attribute stores; weakref parent sets behave as sets.",
         "technique": "custom AST/CFG must-pass-through and guard-condition rules over the resolved node class hierarchy",
@@ -138,7 +138,7 @@ CLAIMED = {
                 "model, both constraint classes and MultiFit equals data points - parameters + fixed + constraint measurements; chi2 probability is "
                 "1 - chi2.cdf(cost - determinant, ndf) and every determinant subtraction in FitBase/MultiFit.chi2_probability is guarded by the flag saying "
                 "the cost contains that term; goodness of fit = full cost with zeroed determinant minus the handle at model := data (argument positions "
-                "looked up by the cost function's own names), the Gaussian-approximation override restores its flag; MultiFit overrides keep the base terms. Added: is_diagonal is exact (no tolerance); MultiFit.goodness_of_fit contains the constraint cost of the MultiFit and of members covered by the shared cost.",
+                "looked up by the cost function's own names), the Gaussian-approximation override restores its flag; MultiFit overrides keep the base terms. Added: is_diagonal is exact (no tolerance); MultiFit.goodness_of_fit contains the constraint cost of the MultiFit and of members covered by the shared cost; (H-det) the determinant term taken off the cost is the last argument of the cost function of the same fit, for a single fit and for every MultiFit member; (H-pw) the pointwise twin of a cost function is constructed with every constructor argument that selects the nodes the cost reads (axes_to_use).",
         "note": "Numerical values are not decided. A formula rewritten with symbols the specification does not mention is reported as ANALYSIS-ERROR "
                 "(cannot be judged), never as a violation; a dropped/changed term, coefficient, sign or argument order is a violation.",
         "technique": "expression normalisation to canonical polynomial forms + structural guard rules (no paths, no solver)",
